@@ -9,8 +9,13 @@ type (
 	WaitGroup = vrt.WaitGroup
 	Once      = vrt.Once
 	Pool      = vrt.Pool
+	Map       = vrt.Map
+	Cond      = vrt.Cond
 	Locker    interface {
 		Lock()
 		Unlock()
 	}
 )
+
+// NewCond is sync.NewCond.
+func NewCond(l Locker) *Cond { return vrt.NewCond(l) }
